@@ -367,10 +367,30 @@ pub struct BinaryExpr {
     pub right: Expr,
 }
 
+impl BinaryExpr {
+    /// The expression without parentheses around it. An operand is put into parentheses only
+    /// where the text would be read differently without them (all binary operators associate to
+    /// the left), so a long sum stays a flat text instead of nesting once per term
+    fn fmt_bare(&self, f: &mut fmt::Formatter) -> fmt::Result {
+        let precedence = self.operator.precedence();
+        match &self.left {
+            Expr::Binary(left) if left.operator.precedence() >= precedence => left.fmt_bare(f)?,
+            left => write!(f, "{}", left)?,
+        }
+        write!(f, "{}", self.operator)?;
+        match &self.right {
+            Expr::Binary(right) if right.operator.precedence() > precedence => right.fmt_bare(f),
+            right => write!(f, "{}", right),
+        }
+    }
+}
+
 impl fmt::Display for BinaryExpr {
     fn fmt(&self, f: &mut fmt::Formatter) -> fmt::Result {
         // parenthesised, so that the text can stand in for the expression anywhere (macro arguments)
-        write!(f, "({}{}{})", self.left, self.operator, self.right)
+        write!(f, "(")?;
+        self.fmt_bare(f)?;
+        write!(f, ")")
     }
 }
 
@@ -424,6 +444,27 @@ pub enum BinaryOperator {
     LogicalAnd,
     #[strum(serialize = "||")]
     LogicalOr,
+}
+
+impl BinaryOperator {
+    /// How tightly the operator binds, the levels of the grammar (src/document.rs)
+    fn precedence(&self) -> u8 {
+        match self {
+            BinaryOperator::LogicalOr => 4,
+            BinaryOperator::LogicalAnd => 5,
+            BinaryOperator::BitwiseOr => 6,
+            BinaryOperator::BitwiseXor => 7,
+            BinaryOperator::BitwiseAnd => 8,
+            BinaryOperator::Equal | BinaryOperator::NotEqual => 9,
+            BinaryOperator::LessThan
+            | BinaryOperator::LessOrEqual
+            | BinaryOperator::GreaterThan
+            | BinaryOperator::GreaterOrEqual => 10,
+            BinaryOperator::ShiftLeft | BinaryOperator::ShiftRight => 11,
+            BinaryOperator::Add | BinaryOperator::Sub => 12,
+            BinaryOperator::Mul | BinaryOperator::Div | BinaryOperator::Rem => 13,
+        }
+    }
 }
 
 #[derive(Clone, PartialEq, Eq, Debug, Display)]
